@@ -13,9 +13,14 @@ CONSTANTS
   MaxReverts = 0
   MemoFamilies = {}
   MemoPurged = TRUE
+  FieldTable <- MCFieldTable
+  VaryShapes = FALSE
+  MaxClasses = 0
+  CodecSlip = "none"
+  SlipCodecs = {}
 INIT Init
 NEXT NextR
 VIEW view
 PROPERTIES RestartIsNoOp ReadIsNoOp
-INVARIANTS ItemAccessors OutOfRange BlockAccessors ProjectionsAgree Layout Gone IndexesExact
+INVARIANTS ItemAccessors OutOfRange BlockAccessors ProjectionsAgree Layout Gone IndexesExact ShapePreserved
 CHECK_DEADLOCK FALSE
